@@ -60,6 +60,9 @@ CHECKS = {
  'C19': ('Hypothesis-generated public datasets / measurement sets / totals vs validity predicate on the weights, C09 reference total, and loss recomputed from weighted contingency tables (metamorphic: never worse than uniform weights)',
          'Generated-input search with a fresh PublicInference per case; includes degenerate shapes (single-cell projections, exact-fit starts, conflicting answers, a clique measured twice with different noise) that drive the line search to its corner cases.',
          'Loss comparison tolerance 1e-9 relative + 1e-9 x loss of the all-zero table; estimated totals compared with the pinv reference at 1e-6.'),
+ 'C18': ('Hypothesis-generated measurement sets x marginal oracle x iteration counts: crash-freedom and validity predicate on the measured clique tables, loss vs uniform start, feasibility of the convex oracle; differential against the certified simplex-QP optimum on disjoint clique families',
+         'Generated-input search; every exception raised by the estimator is a violation (inputs stay inside the documented interface: explicit Q, tuple projections); exactness clause with iteration escalation and plateau rule.',
+         'pairwise-convex oracle needs cvxopt (not installed) and is outside the listed quantifier.'),
 }
 NOT_YET = 'check not built yet (work in progress in this session); see DESIGN.md for the planned check'
 
